@@ -168,6 +168,8 @@ type Gap struct {
 	Next     int // id of the token after (-1: end of input)
 	PrevLast byte
 	Ctx      string // "halt-compiler-head": between __halt_compiler and its ';'
+	// BeforeCloseTag: the token after the gap is a close tag ("?>" acting as ';')
+	BeforeCloseTag bool
 }
 
 func triviaGaps(src string, p *Probe, ids *tokIDs) []Gap {
@@ -207,6 +209,9 @@ func triviaGaps(src string, p *Probe, ids *tokIDs) []Gap {
 		}
 		if lastEnd > 0 {
 			g.PrevLast = src[lastEnd-1]
+		}
+		if next == int(';') && strings.HasPrefix(src[to:], "?>") && g.Ctx == "" {
+			g.BeforeCloseTag = true
 		}
 		gaps = append(gaps, g)
 	}
@@ -287,6 +292,13 @@ func triviaAlternatives(g Gap, rich bool) [][]string {
 		{tC(sp + "/*"), tH('c', 0, 2), tC("*/")},
 		{tC(sp + "#"), tH('c', 0, 1), tC("\n")},
 	}
+	if g.BeforeCloseTag {
+		// a one-line comment ended by the close tag that follows; its last byte may be
+		// '?' or '>' ("// <b>?>", "# really??>")
+		alts = append(alts,
+			[]string{tC(sp + "//"), tH('k', 0, 1), tH('e', 1, 1)},
+			[]string{tC(sp + "#"), tH('k', 0, 1), tH('e', 1, 1)})
+	}
 	if rich {
 		alts = append(alts,
 			[]string{tC(sp + "//"), tH('c', 0, 1), tC("\r\n")},
@@ -298,7 +310,18 @@ func triviaAlternatives(g Gap, rich bool) [][]string {
 	return alts
 }
 
+type corpusView struct {
+	snips []*Snip
+	pr    map[int]*Probe
+	ids   *tokIDs
+}
+
+var corpusCache = map[string]*corpusView{}
+
 func (c *Check) corpusFor(ver string) ([]*Snip, map[int]*Probe, *tokIDs, error) {
+	if v := corpusCache[ver]; v != nil {
+		return v.snips, v.pr, v.ids, nil
+	}
 	snips, err := loadCorpus()
 	if err != nil {
 		return nil, nil, nil, err
@@ -311,7 +334,60 @@ func (c *Check) corpusFor(ver string) ([]*Snip, map[int]*Probe, *tokIDs, error) 
 	if err != nil {
 		return nil, nil, nil, err
 	}
+	corpusCache[ver] = &corpusView{snips, pr, ids}
 	return snips, pr, ids, nil
+}
+
+// pickDiverse: which of the candidates (given by their context keys, in corpus order) a
+// sampled tier uses. every <= 1: all. Otherwise the budget is len/every candidates, spent
+// round-robin over the distinct keys: the first candidate of every key, then the second of
+// every key, ... - so that a sample covers as many different token contexts as it can instead
+// of every n-th place. Deterministic.
+func pickDiverse(keys []string, every int) []bool {
+	use := make([]bool, len(keys))
+	if every <= 1 {
+		for i := range use {
+			use[i] = true
+		}
+		return use
+	}
+	budget := (len(keys) + every - 1) / every
+	byKey := map[string][]int{}
+	var order []string
+	for i, k := range keys {
+		if _, ok := byKey[k]; !ok {
+			order = append(order, k)
+		}
+		byKey[k] = append(byKey[k], i)
+	}
+	for round := 0; budget > 0; round++ {
+		any := false
+		for _, k := range order {
+			l := byKey[k]
+			if round < len(l) {
+				any = true
+				// later rounds take candidates from the far end first: different programs
+				idx := l[round]
+				if round%2 == 1 {
+					idx = l[len(l)-1-round/2]
+					if use[idx] {
+						idx = l[round]
+					}
+				}
+				if !use[idx] {
+					use[idx] = true
+					budget--
+					if budget == 0 {
+						break
+					}
+				}
+			}
+		}
+		if !any {
+			break
+		}
+	}
+	return use
 }
 
 func verParam(ver string) string { return ver }
@@ -325,43 +401,55 @@ func (c *Check) triviaJobs(entry, ver string, every int, rich bool, fuel int64, 
 	}
 	var needs []JobNeed
 	nsn, ngap := 0, 0
+	type cand struct {
+		s *Snip
+		g Gap
+	}
+	var cands []cand
+	var keys []string
 	for _, s := range snips {
 		p := pr[s.ID]
-		if p == nil || p.NErr != 0 || s.Class == "pair" {
+		if p == nil || p.NErr != 0 || s.Class == "pair" || s.Class == "double" {
 			continue
 		}
-		gaps := triviaGaps(s.Src, p, ids)
-		used := false
-		for gi, g := range gaps {
-			if every > 1 && (gi+s.ID)%every != 0 {
-				continue
-			}
-			used = true
-			ngap++
-			alts := triviaAlternatives(g, rich)
-			if c.TriviaEmpty && g.Ctx == "" {
-				alts = append(alts, []string{tH('s', 0, 1)})
-			}
-			for _, alt := range alts {
-				segs := []string{tC(s.Src[:g.From])}
-				segs = append(segs, alt...)
-				segs = append(segs, tC(s.Src[g.To:]))
-				j := jobTmpl(entry, "S4 trivia", tmpl(segs...), ver, fuel)
-				j.Params["base"] = s.Src
-				j.Params["prev"] = g.Prev
-				j.Params["next"] = g.Next
-				j.Params["ctx"] = g.Ctx
-				var cv []string
-				if cover != "" {
-					cv = []string{cover}
-				}
-				needs = append(needs, JobNeed{Job: j, Cover: cv})
-			}
-		}
-		if used {
-			nsn++
+		for _, g := range triviaGaps(s.Src, p, ids) {
+			cands = append(cands, cand{s, g})
+			keys = append(keys, fmt.Sprintf("%d/%d/%s/%v", g.Prev, g.Next, g.Ctx, g.BeforeCloseTag))
 		}
 	}
+	use := pickDiverse(keys, every)
+	usedSnip := map[int]bool{}
+	distinct := map[string]bool{}
+	for ci, cd := range cands {
+		if !use[ci] {
+			continue
+		}
+		s, g := cd.s, cd.g
+		usedSnip[s.ID] = true
+		distinct[keys[ci]] = true
+		ngap++
+		alts := triviaAlternatives(g, rich)
+		if c.TriviaEmpty && g.Ctx == "" {
+			alts = append(alts, []string{tH('s', 0, 1)})
+		}
+		for _, alt := range alts {
+			segs := []string{tC(s.Src[:g.From])}
+			segs = append(segs, alt...)
+			segs = append(segs, tC(s.Src[g.To:]))
+			j := jobTmpl(entry, "S4 trivia", tmpl(segs...), ver, fuel)
+			j.Params["base"] = s.Src
+			j.Params["prev"] = g.Prev
+			j.Params["next"] = g.Next
+			j.Params["ctx"] = g.Ctx
+			var cv []string
+			if cover != "" {
+				cv = []string{cover}
+			}
+			needs = append(needs, JobNeed{Job: j, Cover: cv})
+		}
+	}
+	nsn = len(usedSnip)
+	c.Extra["trivia_gap_contexts_"+ver] = len(distinct)
 	c.Extra["corpus_snippets_used_"+ver] = nsn
 	c.Extra["trivia_gaps_"+ver] = ngap
 	return needs, nil
@@ -389,18 +477,42 @@ func (c *Check) lexemeJobs(entry, ver string, every int, fuel int64) ([]JobNeed,
 		j.Params["ctx"] = ""
 		needs = append(needs, JobNeed{Job: j})
 	}
-	k := 0
+	// esc: a backslash followed by an arbitrary byte (line terminators, quotes, '$' included)
+	// inserted into a string body at this offset (-1: none)
+	escHole := func(s *Snip, at int) {
+		if at < 0 || at > len(s.Src) || !utf8.ValidString(s.Src[:at]) || !utf8.ValidString(s.Src[at:]) {
+			return
+		}
+		j := jobTmpl(entry, "S5 lexeme", tmpl(tC(s.Src[:at]+"\\"), tH('a', 1, 1), tC(s.Src[at:])), ver, fuel)
+		j.Params["base"] = ""
+		j.Params["prev"] = 0
+		j.Params["next"] = 0
+		j.Params["ctx"] = ""
+		needs = append(needs, JobNeed{Job: j})
+	}
+	type lcand struct {
+		s           *Snip
+		first, last int
+		cf, cl      byte
+		esc         int
+	}
+	var cands []lcand
+	var keys []string
 	for _, s := range snips {
 		p := pr[s.ID]
-		if p == nil || p.NErr != 0 || s.Class == "pair" {
+		if p == nil || p.NErr != 0 || s.Class == "pair" || s.Class == "double" {
 			continue
 		}
+		prev := 0
 		for _, t := range p.Toks {
 			if t.FF || t.End <= t.Start {
 				continue
 			}
+			pv := prev
+			prev = t.ID
 			var first, last int = -1, -1
 			var cf, cl byte
+			esc := -1
 			switch t.ID {
 			case ids.id("T_STRING"), ids.id("T_STRING_VARNAME"):
 				first, cf = t.Start, 'I'
@@ -420,24 +532,37 @@ func (c *Check) lexemeJobs(entry, ver string, every int, fuel int64) ([]JobNeed,
 				if t.End-t.Start >= 3 {
 					first, cf = t.Start+1, 'q'
 				}
+				if t.End-t.Start >= 2 && (s.Src[t.Start] == '\'' || s.Src[t.Start] == '"') {
+					esc = t.Start + 1
+				}
 			case ids.id("T_ENCAPSED_AND_WHITESPACE"):
 				first, cf = t.Start, 'q'
+				if pv == int('"') || pv == int('`') {
+					esc = t.Start
+				}
 			case ids.id("T_INLINE_HTML"):
 				first, cf = t.Start, 'h'
 			default:
 				continue
 			}
-			k++
-			if every > 1 && (k+s.ID)%every != 0 {
-				continue
-			}
-			n++
-			if first >= 0 {
-				hole(s, first, cf)
-			}
-			if last >= 0 {
-				hole(s, last, cl)
-			}
+			cands = append(cands, lcand{s, first, last, cf, cl, esc})
+			keys = append(keys, fmt.Sprintf("%d/%d", pv, t.ID))
+		}
+	}
+	use := pickDiverse(keys, every)
+	for ci, cd := range cands {
+		if !use[ci] {
+			continue
+		}
+		n++
+		if cd.first >= 0 {
+			hole(cd.s, cd.first, cd.cf)
+		}
+		if cd.last >= 0 {
+			hole(cd.s, cd.last, cd.cl)
+		}
+		if cd.esc >= 0 {
+			escHole(cd.s, cd.esc)
 		}
 	}
 	c.Extra["lexeme_holes_"+ver] = n
@@ -465,40 +590,79 @@ func (c *Check) wholeJobs(entry, ver string, fuel int64, onlyOK bool) ([]JobNeed
 	return needs, nil
 }
 
-// windowJobs: S3 - one symbolic byte replaced / inserted at every every-th offset.
+// windowJobs: S3 - one symbolic byte inserted / replaced / deleted. Candidates are all offsets
+// of the eligible programs; a sampled tier picks them by context (the token at the offset,
+// where in the token, and the token before), see pickDiverse.
 func (c *Check) windowJobs(entry, ver string, every int, fuel int64, maxLen int, snippetsOnly bool) ([]JobNeed, error) {
-	snips, err := loadCorpus()
+	snips, pr, _, err := c.corpusFor(ver)
 	if err != nil {
 		return nil, err
 	}
 	var needs []JobNeed
-	n := 0
+	type wcand struct {
+		s *Snip
+		i int
+	}
+	var cands []wcand
+	var keys []string
 	for _, s := range snips {
 		if len(s.Src) > maxLen || (snippetsOnly && s.Class != "") {
 			continue
 		}
+		p := pr[s.ID]
+		ti := 0
+		prevID := 0
 		for i := 0; i <= len(s.Src); i++ {
-			if every > 1 && (i+s.ID)%every != 0 {
-				continue
-			}
 			// parameters travel as JSON: do not cut inside a multi-byte character
 			if !utf8.ValidString(s.Src[:i]) || !utf8.ValidString(s.Src[i:]) || (i < len(s.Src) && !utf8.ValidString(s.Src[i+1:])) {
 				continue
 			}
-			n++
-			// insert one byte
-			j := jobTmpl(entry, "S3 window", tmpl(tC(s.Src[:i]), tH('a', 1, 1), tC(s.Src[i:])), ver, fuel)
+			key := "?"
+			if p != nil {
+				for ti < len(p.Toks) && p.Toks[ti].End <= i && p.Toks[ti].End > p.Toks[ti].Start {
+					prevID = p.Toks[ti].ID
+					ti++
+				}
+				switch {
+				case ti >= len(p.Toks) || i < p.Toks[ti].Start:
+					key = fmt.Sprintf("after %d", prevID)
+				case i == p.Toks[ti].Start:
+					key = fmt.Sprintf("start %d after %d", p.Toks[ti].ID, prevID)
+				case i == p.Toks[ti].End-1:
+					key = fmt.Sprintf("last %d", p.Toks[ti].ID)
+				case i == p.Toks[ti].Start+1:
+					key = fmt.Sprintf("second %d", p.Toks[ti].ID)
+				default:
+					key = fmt.Sprintf("in %d", p.Toks[ti].ID)
+				}
+			}
+			cands = append(cands, wcand{s, i})
+			keys = append(keys, key)
+		}
+	}
+	use := pickDiverse(keys, every)
+	n := 0
+	distinct := map[string]bool{}
+	for ci, cd := range cands {
+		if !use[ci] {
+			continue
+		}
+		s, i := cd.s, cd.i
+		n++
+		distinct[keys[ci]] = true
+		// insert one byte
+		j := jobTmpl(entry, "S3 window", tmpl(tC(s.Src[:i]), tH('a', 1, 1), tC(s.Src[i:])), ver, fuel)
+		j.Params["base"] = s.Src
+		needs = append(needs, JobNeed{Job: j})
+		if i < len(s.Src) {
+			// replace one byte / delete one byte
+			j = jobTmpl(entry, "S3 window", tmpl(tC(s.Src[:i]), tH('a', 0, 1), tC(s.Src[i+1:])), ver, fuel)
 			j.Params["base"] = s.Src
 			needs = append(needs, JobNeed{Job: j})
-			if i < len(s.Src) {
-				// replace one byte / delete one byte
-				j = jobTmpl(entry, "S3 window", tmpl(tC(s.Src[:i]), tH('a', 0, 1), tC(s.Src[i+1:])), ver, fuel)
-				j.Params["base"] = s.Src
-				needs = append(needs, JobNeed{Job: j})
-			}
 		}
 	}
 	c.Extra["window_positions_"+ver] = n
+	c.Extra["window_contexts_"+ver] = len(distinct)
 	return needs, nil
 }
 
